@@ -1,3 +1,274 @@
-import GoStd.Bytes
+/-
+C06 — The proxy inserts itself into the Via and Record-Route stacks of what it forwards.
+
+"Whenever the proxy hands a request to a backend, or relays it to a next hop it has learned to
+reach through one of its listeners, it pushes exactly one new topmost Via naming that listener's
+transport, address and port with a freshly generated branch that starts with z9hG4bK; every Via
+entry already present stays beneath it in its original order. In the same cases, if the request
+already carries a Record-Route or the listener is configured to always record, it also places one
+entry <sip:listener-address:port;lr> ahead of all existing Record-Route entries, and otherwise
+adds none."
+
+Model: Proxy.Model (`insertSelf`, `sendToBackend`, `handleMessage`), abstraction Lemmas.Abs
+(`viaStack`, `rrStack`). The branch is an oracle of the model (`RawEv.branch`, what CreateBranch
+returned); its z9hG4bK prefix is checked on the real code by the correspondence streams. The
+`insertSelf` theorems hold for every compact-name map (the Record-Route one needs that "Via" is not
+a Record-Route name); the end-to-end theorems need the name classes involved to be pairwise
+disjoint (`Lemmas.ClassesOK`, proved for the generated table by `Lemmas.real_classesOK`).
+-/
+import Proxy.Model
+import Lemmas.Abs
+import Lemmas.Pipe
+open GoStd Sip Proxy Lemmas
+
 namespace Props.C06
+
+/-! ### the stacks after `insertSelf` -/
+
+/-- exactly one new topmost Via, everything else beneath it in order (any compact map) -/
+theorem C06_insertSelf_via (cfg : Cfg) (m : Message) (t : Listener) (br : Bytes) :
+    viaStack cfg.cm (insertSelf cfg m t br).headers = ownVia t br :: viaStack cfg.cm m.headers :=
+  viaStack_insertSelf cfg m t br
+
+/-- One own Record-Route entry ahead of all others iff the request carries a Record-Route-class
+header or the listener always records; none otherwise. `insertSelf` tests for a Record-Route header
+AFTER `addVia`, so the new header named "Via" must not itself count as a Record-Route header: `hV`
+(true for the generated table: `Lemmas.real_via_rr`). -/
+theorem C06_insertSelf_rr (cfg : Cfg) (hV : isSameHeader cfg.cm viaName recordRouteName = false)
+    (m : Message) (t : Listener) (br : Bytes) :
+    rrStack cfg.cm (insertSelf cfg m t br).headers =
+      (if (findHeader cfg.cm m.headers recordRouteName).isSome ∨ cfg.mustRecordRoute = true
+       then [ownRecordRoute t] else []) ++ rrStack cfg.cm m.headers :=
+  rrStack_insertSelf cfg hV m t br
+
+/-- `hV` holds for the generated table -/
+theorem real_hV : isSameHeader realCm viaName recordRouteName = false :=
+  real_via_rr _ (isSameHeader_refl _ _)
+
+/-- ... and cannot be dropped: with a table that makes "via" the compact form of Record-Route the
+proxy records although the request had no Record-Route and always-record is off. -/
+example :
+    let cfg : Cfg := { cm := buildCompactMap [(str "Record-Route", str "via")], finalClasses := [], supported := [],
+                       names := [], keepNextHopRoute := false, mustRecordRoute := false, hosts := [],
+                       routes := [], transports0 := none }
+    let m : Message := { start := .request [] (.abs []) [], headers := [], body := [] }
+    isSameHeader cfg.cm viaName recordRouteName = true ∧
+    (rrStack cfg.cm (insertSelf cfg m ⟨[], [], 1⟩ []).headers).length = 1 ∧
+    (rrStack cfg.cm m.headers).length = 0 := by
+  decide +kernel
+
+/-- `insertSelf` touches neither the start line nor the body -/
+theorem insertSelf_start_body (cfg : Cfg) (m : Message) (t : Listener) (br : Bytes) :
+    (insertSelf cfg m t br).start = m.start ∧ (insertSelf cfg m t br).body = m.body := by
+  unfold insertSelf
+  simp only []
+  split <;> simp [addVia, addRecordRoute]
+
+/-- the Route stack is not touched either -/
+theorem C06_insertSelf_route (cfg : Cfg) (m : Message) (t : Listener) (br : Bytes) :
+    routeStack cfg.cm (insertSelf cfg m t br).headers = routeStack cfg.cm m.headers :=
+  routeStack_insertSelf cfg m t br
+
+/-! ### what the two entries look like on the wire -/
+
+theorem str_sip20 : str "SIP/2.0/" = str "SIP" ++ [47] ++ str "2.0" ++ [47] := by decide +kernel
+theorem str_branch : str ";branch=" = [59] ++ str "branch" ++ [61] := by decide +kernel
+theorem str_branch0 : str ";branch" = [59] ++ str "branch" := by decide +kernel
+theorem str_ltsip : str "<sip:" = [] ++ [60] ++ (str "sip" ++ [58]) := by decide +kernel
+theorem str_lr : str ";lr>" = [59] ++ str "lr" ++ [62] := by decide +kernel
+
+/-- `SIP/2.0/<proto> <addr>:<port>;branch=<branch>`.
+
+`_partial`: the statement asked for (`t.port ≠ 0` only) is false for the empty branch, because
+`KeyValue.Write` prints `=value` only for a non-empty value (`C06_ownVia_shape_empty` below); the
+extra hypothesis `br ≠ []` holds for every branch CreateBranch generates (z9hG4bK prefix:
+`C06_ownVia_shape_magic`). -/
+theorem C06_ownVia_shape_partial (t : Listener) (br : Bytes) (hp : t.port ≠ 0) (hb : br ≠ []) :
+    (ownVia t br).encode =
+      str "SIP/2.0/" ++ t.proto ++ [32] ++ t.addr ++ [58] ++ itoa t.port ++ str ";branch=" ++ br := by
+  have hl : br.length > 0 := by cases br <;> simp_all
+  simp [ownVia, ViaParam.encode, encodeSemiParams, KeyValue.encode, hp, hl, str_sip20, str_branch]
+
+/-- the missing case: an empty branch is printed as a bare `;branch` -/
+theorem C06_ownVia_shape_empty (t : Listener) (hp : t.port ≠ 0) :
+    (ownVia t []).encode =
+      str "SIP/2.0/" ++ t.proto ++ [32] ++ t.addr ++ [58] ++ itoa t.port ++ str ";branch" := by
+  simp [ownVia, ViaParam.encode, encodeSemiParams, KeyValue.encode, hp, str_sip20, str_branch0]
+
+/-- a branch with the magic cookie is not empty -/
+theorem C06_ownVia_shape_magic (t : Listener) (br : Bytes) (hp : t.port ≠ 0)
+    (hm : hasPrefix (str "z9hG4bK") br = true) :
+    (ownVia t br).encode =
+      str "SIP/2.0/" ++ t.proto ++ [32] ++ t.addr ++ [58] ++ itoa t.port ++ str ";branch=" ++ br := by
+  apply C06_ownVia_shape_partial t br hp
+  rintro rfl
+  have : hasPrefix (str "z9hG4bK") [] = false := by decide +kernel
+  rw [this] at hm; cases hm
+
+/-- a listener on port 0 (never configured) would be printed without a port -/
+theorem C06_ownVia_shape_port0 (t : Listener) (br : Bytes) (hp : t.port = 0) (hb : br ≠ []) :
+    (ownVia t br).encode = str "SIP/2.0/" ++ t.proto ++ [32] ++ t.addr ++ str ";branch=" ++ br := by
+  have hl : br.length > 0 := by cases br <;> simp_all
+  simp [ownVia, ViaParam.encode, encodeSemiParams, KeyValue.encode, hp, hl, str_sip20, str_branch]
+
+/-- the top Via names the listener and carries the branch, whatever the port -/
+theorem C06_ownVia_fields (t : Listener) (br : Bytes) :
+    (ownVia t br).transport = t.proto ∧ (ownVia t br).host = t.addr ∧ (ownVia t br).port = t.port ∧
+    getParam (ownVia t br).params (str "branch") = some br := by
+  simp [ownVia, getParam]
+
+/-- `<sip:<addr>:<port>;lr>` -/
+theorem C06_ownRecordRoute_shape (t : Listener) (hp : t.port ≠ 0) :
+    (ownRecordRoute t).encode = str "<sip:" ++ t.addr ++ [58] ++ itoa t.port ++ str ";lr>" := by
+  simp [ownRecordRoute, RouteParam.encode, NameAddr.encode, AddrSpec.encode, SIPURI.encode, SIPURI.write,
+    encodeUriParams, encodeUriHeaders, encodeSemiParams, KeyValue.encode, hp, str_ltsip, str_lr]
+
+/-! ### where `insertSelf` is applied -/
+
+/-- Handing a request to a backend: the bytes sent are those of the message with the proxy's own
+entries inserted for the first listener of the backend item. -/
+theorem C06_sendToBackend (cfg : Cfg) (st : St) (m : Message) (br a data : Bytes)
+    (h : (sendToBackend cfg st m br).2 = [.backend a data]) :
+    ∃ t0, cfg.transports0 = some t0 ∧
+      data = (insertSelf cfg (findBackendByDialog cfg st m).2.2 t0 br).bytes cfg.cm := by
+  unfold sendToBackend at h
+  cases ht : cfg.transports0 with
+  | none => simp [ht] at h
+  | some t0 =>
+    refine ⟨t0, rfl, ?_⟩
+    simp only [ht] at h
+    split at h
+    · simp at h
+    · simp only [List.cons.injEq, Out.backend.injEq, and_true] at h
+      exact h.2.symm
+
+/-- `sendToBackend` emits nothing else: at most one packet, and it goes to a backend. -/
+theorem C06_sendToBackend_only (cfg : Cfg) (st : St) (m : Message) (br : Bytes) :
+    (sendToBackend cfg st m br).2 = [] ∨ ∃ a data, (sendToBackend cfg st m br).2 = [.backend a data] := by
+  unfold sendToBackend
+  cases cfg.transports0 with
+  | none => left; rfl
+  | some t0 =>
+    simp only []
+    split
+    · left; rfl
+    · right; exact ⟨_, _, rfl⟩
+
+/-- Relaying a request to a next hop reached through a learned listener `t`: what is passed to
+`sendMessage` is the routed request with the proxy's own entries for `t` inserted. -/
+theorem C06_relay_learned (cfg : Cfg) (st : St) (ev : RawEv) (m m1 : Message) (hop : Hop) (t : Listener)
+    (hreq : isRequest m = true) (hh : getNextRequestHop cfg m = (some hop, m1))
+    (hl : assocGet st.learned hop.host = some t) :
+    handleMessage cfg st ev m = sendMessage cfg st hop (insertSelf cfg m1 t ev.branch) := by
+  simp [handleMessage, hreq, hh, hl]
+
+/-- ... and to a hop with no learned listener the request is passed on without them. -/
+theorem C06_relay_unlearned (cfg : Cfg) (st : St) (ev : RawEv) (m m1 : Message) (hop : Hop)
+    (hreq : isRequest m = true) (hh : getNextRequestHop cfg m = (some hop, m1))
+    (hl : assocGet st.learned hop.host = none) :
+    handleMessage cfg st ev m = sendMessage cfg st hop m1 := by
+  simp [handleMessage, hreq, hh, hl]
+
+/-- A request with no next hop that is addressed to the service goes to `sendToBackend`. -/
+theorem C06_to_backend (cfg : Cfg) (st : St) (ev : RawEv) (m m1 : Message)
+    (hreq : isRequest m = true) (hh : getNextRequestHop cfg m = (none, m1)) :
+    handleMessage cfg st ev m =
+      if isMyMessage cfg ev.frm m1 ev.rxMatch then sendToBackend cfg st m1 ev.branch else (st, []) := by
+  simp [handleMessage, hreq, hh]
+
+/-! ### end to end: a request event through one `step` of the receive loop
+
+`Lemmas.ClassesOK cm` collects the pairwise disjointness of the header-name classes involved
+(Via, Route, Record-Route against each other and against CSeq, From, To, whose headers the pipeline
+decodes in place on the way); `Lemmas.real_classesOK` proves it for the generated table. -/
+
+/-- Handing a request to a backend: the packet is the serialisation of a message with exactly one
+new topmost Via (for the backend item's first listener, carrying the generated branch) above the
+Via stack as it stands after `handleRawMessage` (see C07 for that stack), and with one own
+Record-Route entry ahead of the received ones iff the request carried a Record-Route header or the
+listener always records. -/
+theorem C06_step_backend (cfg : Cfg) (hc : ClassesOK cfg.cm) (st : St) (ev : RawEv)
+    (hreq : isRequest ev.msg = true) (a data : Bytes) (ho : Out.backend a data ∈ (step cfg st ev).2) :
+    ∃ (t0 : Listener) (m' : Message), cfg.transports0 = some t0 ∧ data = m'.bytes cfg.cm ∧
+      viaStack cfg.cm m'.headers =
+        ownVia t0 ev.branch :: viaStack cfg.cm (handleRawMessage cfg st ev).2.headers ∧
+      rrStack cfg.cm m'.headers =
+        (if (findHeader cfg.cm ev.msg.headers recordRouteName).isSome ∨ cfg.mustRecordRoute = true
+         then [ownRecordRoute t0] else []) ++ rrStack cfg.cm ev.msg.headers := by
+  obtain ⟨m', self, hd, hv, hr, _, hs⟩ := step_request_out cfg hc st ev hreq _ ho
+  simp only [Out.isBackend, ↓reduceIte] at hs
+  obtain ⟨_, hself, hsome⟩ := hs
+  cases self with
+  | none => cases hsome
+  | some t0 => exact ⟨t0, m', hself.symm, hd, hv, hr⟩
+
+/-- Relaying a request: with a listener `t` learned for the next hop's host the packet carries
+the proxy's own Via for `t` on top (and its Record-Route entry under the same condition as above);
+without one nothing is added. Everything received stays beneath, in order. -/
+theorem C06_step_relay (cfg : Cfg) (hc : ClassesOK cfg.cm) (st : St) (ev : RawEv)
+    (hreq : isRequest ev.msg = true) (o : Out) (ho : o ∈ (step cfg st ev).2) (hb : o.isBackend = false) :
+    ∃ (hop : Hop) (m' : Message), (getNextRequestHop cfg (handleRawMessage cfg st ev).2).1 = some hop ∧
+      o.data = m'.bytes cfg.cm ∧
+      match assocGet (handleRawMessage cfg st ev).1.learned hop.host with
+      | some t =>
+        viaStack cfg.cm m'.headers =
+          ownVia t ev.branch :: viaStack cfg.cm (handleRawMessage cfg st ev).2.headers ∧
+        rrStack cfg.cm m'.headers =
+          (if (findHeader cfg.cm ev.msg.headers recordRouteName).isSome ∨ cfg.mustRecordRoute = true
+           then [ownRecordRoute t] else []) ++ rrStack cfg.cm ev.msg.headers
+      | none =>
+        viaStack cfg.cm m'.headers = viaStack cfg.cm (handleRawMessage cfg st ev).2.headers ∧
+        rrStack cfg.cm m'.headers = rrStack cfg.cm ev.msg.headers := by
+  obtain ⟨m', self, hd, hv, hr, _, hs⟩ := step_request_out cfg hc st ev hreq _ ho
+  simp only [hb, Bool.false_eq_true, ↓reduceIte] at hs
+  obtain ⟨hop, hhop, hself⟩ := hs
+  refine ⟨hop, m', hhop, hd, ?_⟩
+  rw [← hself]
+  cases self with
+  | none => exact ⟨by simpa using hv, by simpa using hr⟩
+  | some t => exact ⟨hv, hr⟩
+
+/-- a packet to a backend is only ever produced by `sendToBackend`, a relayed one never goes there:
+the two theorems above cover every output of a request event -/
+theorem C06_step_cover (o : Out) : (∃ a data, o = .backend a data) ∨ o.isBackend = false := by
+  cases o <;> simp [Out.isBackend]
+
+/-! ### non-vacuity
+
+Fixtures of `Lemmas.Pipe`: a configuration with the generated table, one backend, a learned
+listener for host `p1`; the example request of `Lemmas.Abs` (Route: p1, p2) is relayed to p1 with
+the own Via on top; the same request without its Route header goes to the backend. -/
+
+example : isRequest exMsg = true ∧ isRequest exMsgNoRoute = true := by decide +kernel
+
+/-- relayed over UDP to the resolved next hop: `C06_step_relay` applies, with a learned listener -/
+example : ((step exCfg exSt (exEv exMsg)).2.map (fun o => (o.isBackend, match o with
+    | .udp ip port _ => (ip, port) | _ => ([], 0)))) = [(false, (str "10.0.0.9", 5060))] ∧
+    (getNextRequestHop exCfg (handleRawMessage exCfg exSt (exEv exMsg)).2).1 =
+      some { host := str "p1", port := 5060, transport := str "udp" } ∧
+    assocGet (handleRawMessage exCfg exSt (exEv exMsg)).1.learned (str "p1") = some exListener := by
+  decide +kernel
+
+/-- handed to the backend: `C06_step_backend` / `C06_sendToBackend` apply -/
+example : (step exCfg exSt (exEv exMsgNoRoute)).2.map (fun o => match o with
+    | .backend a _ => some a | _ => none) = [some (str "10.0.0.5:5060")] := by
+  decide +kernel
+
+example : ((sendToBackend exCfg exSt exMsgNoRoute (str "z9hG4bKabc")).2.map Out.isBackend) = [true] := by
+  decide +kernel
+
+/-- the hypotheses of `C06_relay_learned` hold for the example -/
+example : getNextRequestHop exCfg exMsg =
+    (some { host := str "p1", port := 5060, transport := str "udp" }, (getNextRequestHop exCfg exMsg).2) ∧
+    assocGet exSt.learned (str "p1") = some exListener := by
+  decide +kernel
+
+/-- the two shapes, on the example listener -/
+example : (ownVia exListener (str "z9hG4bKabc")).encode = str "SIP/2.0/UDP 10.0.0.1:5060;branch=z9hG4bKabc" := by
+  decide +kernel
+example : (ownRecordRoute exListener).encode = str "<sip:10.0.0.1:5060;lr>" := by decide +kernel
+
+/-- the class hypotheses hold for the generated table -/
+example : ClassesOK exCfg.cm := real_classesOK
+
 end Props.C06
